@@ -247,7 +247,7 @@ pub fn check(ctx: &Ctx, rep: &mut Report) {
         ));
     }
     // random unicode, incl. unterminated quotes
-    let nrand = ctx.size(40_000, 2_000_000) / ctx.nshards;
+    let nrand = ctx.size(200_000, 2_000_000) / ctx.nshards;
     for k in 0..nrand {
         let n = total + k;
         if !ctx.wants(n) {
@@ -259,7 +259,7 @@ pub fn check(ctx: &Ctx, rep: &mut Report) {
         rep.count("random_strings", 1);
     }
     // quoted-run cases
-    let nq = ctx.size(80_000, 4_000_000) / ctx.nshards;
+    let nq = ctx.size(400_000, 4_000_000) / ctx.nshards;
     for k in 0..nq {
         let n = total + (1 << 40) + k;
         if !ctx.wants(n) {
